@@ -33,13 +33,13 @@ enum ProbeId { P_returned, P_threw_std_exception, P_threw_in_setup, P_file_sourc
                P_eio_while_reading, P_read_after_short_read, P_progname_without_slash, P_progname_len_0_or_1,
                P_progname_long, P_progname_only_slashes, P_double_dash_word, P_control_char_word, P_punct_only_word,
                P_nul_in_file, P_long_line_in_file, P_usage_printed, P_subgroup, P_evaluated_twice, P_many_words, P_groups_evaluation,
-               P_nested_argument_files, P_empty_argument_vector };
+               P_nested_argument_files, P_empty_argument_vector, P_value_handler };
 const char* const kProbeNames[] = { "evaluation_returned", "threw_std_exception", "threw_in_setup", "file_source_read",
                "env_source_read", "argument_file_argument_read", "eio_while_reading_a_source", "read_after_short_read",
                "program_name_without_slash", "program_name_of_length_0_or_1", "program_name_longer_than_200",
                "program_name_only_slashes", "double_dash_word", "control_character_word", "punctuation_only_word",
                "nul_byte_in_file", "line_longer_than_1000_in_file", "usage_printed", "sub_group", "same_handler_evaluated_twice",
-               "more_than_12_words", "two_handlers_through_groups_singleton", "argument_files_opened_three_or_more_times", "argument_vector_of_zero_words" };
+               "more_than_12_words", "two_handlers_through_groups_singleton", "argument_files_opened_three_or_more_times", "argument_vector_of_zero_words", "value_handler_front_end" };
 
 using recipes::randomBytes;
 using recipes::punctWord;
@@ -134,6 +134,9 @@ public:
       plan[ "named_env"] = cfg.chance( 1, 4);
       plan[ "repeat"] = cfg.chance( 1, 8) ? 2 : 1;
       if (cfg.chance( 1, 50)) plan[ "no_program_name"] = true;
+      // the ValueHandler front end with its own fixed set of arguments
+      const bool  value_handler = cfg.chance( 1, 10) && !plan.has( "recipe2");
+      if (value_handler) plan[ "value_handler"] = true;
       // a minority of runs: two handlers from the Groups singleton, evaluated
       // through Groups::evalArguments(); the second one takes the list recipes
       if (cfg.chance( 1, 6))
@@ -166,6 +169,7 @@ public:
          {
          }
       }
+      if (plan.geti( "value_handler", 0) != 0) recipes::valueHandlerInfo( built);
       // program name
       std::string  argv0;
       switch (wl.below( 10))
@@ -321,6 +325,8 @@ public:
       cfg.named_env = plan.geti( "named_env", 0) != 0;
       cfg.env_name = "SIM_ARGS_VAR";
       cfg.repeat = static_cast< int>( std::max< long long>( 1, std::min< long long>( 3, plan.geti( "repeat", 1))));
+      cfg.value_handler = plan.geti( "value_handler", 0) != 0 && !plan.get( "recipe2").isObj();
+      if (cfg.value_handler) st.probe( P_value_handler);
       const std::string&  argv0 = plan.gets( "argv0");
       cfg.argv.push_back( argv0);
       const Json&  wj = plan.get( "words");
